@@ -71,6 +71,16 @@ def raw_exists(untils, offsets, local_ms):
   return False
 
 
+def raw_day_skipped(untils, offsets, midnight_ms):
+  """Is the whole local day starting at midnight_ms inside the skipped local times of one transition?"""
+  a = raw_index(untils, midnight_ms - 2 * 86400000)
+  b = raw_index(untils, midnight_ms + 3 * 86400000)
+  for k in range(a, min(len(offsets) - 1, b + 1)):
+    if untils[k] - offsets[k] * 60000 <= midnight_ms and midnight_ms + 86400000 <= untils[k] - offsets[k + 1] * 60000:
+      return True
+  return False
+
+
 # ------------------------------------------------------------------------------------------------
 def naive_s(dt):
   return (dt.replace(tzinfo=None) - EPOCH).total_seconds()
@@ -148,7 +158,7 @@ def syn_case(item):
       out["loc"].append(e)
 
   for d in (-1, 0, 1):
-    e = {"d": d, "t": 0, "l": 0, "ex": 0, "um": 0, "at": 0, "exc": ""}
+    e = {"d": d, "t": 0, "l": 0, "ex": 0, "dx": 0, "um": 0, "at": 0, "exc": ""}
     try:
       date = DATE_EPOCH + datetime.timedelta(seconds=BASE_S) + datetime.timedelta(days=d)
       m = (date - DATE_EPOCH).total_seconds()
@@ -157,6 +167,7 @@ def syn_case(item):
       e["t"] = hours(ts - BASE_S)
       e["l"] = hours(naive_s(back) - BASE_S)
       e["ex"] = int(raw_exists(untils, offsets, m * 1000))
+      e["dx"] = int(not raw_day_skipped(untils, offsets, m * 1000))
       e["um"] = hours(offsets[raw_index(untils, m * 1000)] * 60)
       e["at"] = hours(offsets[raw_index(untils, ts * 1000)] * 60)
     except Exception as ex:    # pylint: disable=broad-except
@@ -207,7 +218,7 @@ def loc_probe(zone, rec, local_ms, fav):
 
 
 def dt_probe(zone, rec, ordinal):
-  e = {"d": "", "n": ordinal, "t": "", "back": "", "tod": "", "ex": 0, "u": "", "m": "", "off": "", "um": "",
+  e = {"d": "", "n": ordinal, "t": "", "back": "", "tod": "", "ex": 0, "dx": 0, "u": "", "m": "", "off": "", "um": "",
        "at": "", "exc": ""}
   try:
     date = datetime.date.fromordinal(ordinal)
@@ -221,6 +232,7 @@ def dt_probe(zone, rec, ordinal):
     e["back"] = back.date().isoformat()
     e["tod"] = back.time().isoformat()
     e["ex"] = int(raw_exists(rec.untils, rec.offsets, m * 1000.0))
+    e["dx"] = int(not raw_day_skipped(rec.untils, rec.offsets, m * 1000.0))
     e["off"] = otok(ts - m)
     e["um"] = otok(rec.offsets[raw_index(rec.untils, m * 1000.0)] * 60)
     e["at"] = otok(rec.offsets[raw_index(rec.untils, ts * 1000.0)] * 60)
